@@ -109,6 +109,22 @@ func (a *Asm) SLshlB32(sdst int, s0, s1 uint32) { a.sop2("s_lshl_b32", 28, uint3
 // SCmpEqU32 emits s_cmp_eq_u32 s0, s1.
 func (a *Asm) SCmpEqU32(s0, s1 uint32) { a.w32("s_cmp_eq_u32", 0xBF000000|6<<16|s1<<8|s0) }
 
+// EXEC is the EXEC register pair as a scalar operand; Minus1 is the inline constant -1.
+const (
+	EXEC   = 126
+	Minus1 = 193
+)
+
+func (a *Asm) sop1(name string, op uint32, sdst int, s0 uint32) {
+	a.w32(name, 0xBE800000|uint32(sdst)<<16|op<<8|s0)
+}
+
+// SMovB64 emits s_mov_b64 sdst, ssrc0 (sdst may be EXEC).
+func (a *Asm) SMovB64(sdst int, s0 uint32) { a.sop1("s_mov_b64", 1, sdst, s0) }
+
+// SAndSaveexecB64 emits s_and_saveexec_b64 sdst, ssrc0.
+func (a *Asm) SAndSaveexecB64(sdst int, s0 uint32) { a.sop1("s_and_saveexec_b64", 32, sdst, s0) }
+
 // ---- SMEM
 func (a *Asm) smem(name string, op uint32, sdata, sbase int, off uint32) {
 	a.w32(name, 0xC0000000|op<<18|1<<17|uint32(sdata)<<6|uint32(sbase>>1), off&0xfffff)
@@ -175,6 +191,11 @@ func (a *Asm) VCmpGtU32(src0 uint32, vsrc1 int) {
 // ---- FLAT / DS
 func (a *Asm) flat(name string, op uint32, vdst, vdata, vaddr, off int) {
 	a.w32(name, 0xDC000000|op<<18|uint32(off)&0x1fff, uint32(vdst)<<24|uint32(vdata)<<8|uint32(vaddr))
+}
+
+// Flat emits any FLAT-format instruction by opcode (loads 16..23, stores 24..31).
+func (a *Asm) Flat(name string, op int, vdst, vdata, vaddr, off int) {
+	a.flat(name, uint32(op), vdst, vdata, vaddr, off)
 }
 
 // FlatLoadDword emits flat_load_dword v[vdst], v[vaddr:vaddr+1] offset:off.
